@@ -1,4 +1,5 @@
 import ArimModel.Src
+import ArimProofs.Generated.SrcC10
 /-! GENERATED on every run by harness/py2lean.py from the Python sources of arim in /repo/src (functions listed in harness/srcspecs.py). Do not edit. -/
 namespace Arim.Src
 set_option linter.unusedVariables false
@@ -14,5 +15,14 @@ def directivity_2d_rectangular_in_fluid {K : Type} [Add K] [Sub K] [Mul K] [Div 
       else
           let x := ((element_width / wavelength) * (o.sin theta))
           some (o.sinc x)
+
+/-- generated from `arim/model.py`, function `_model_amplitudes_with_scat_matrix` (line 1518): one grid point, one timetrace; `numpoints` is `scattering_matrix.shape[0]`; amplitudes and angles in one scalar type -/
+def model_amplitudes_with_scat_matrix_cell {K : Type} [Add K] [Sub K] [Mul K] [Div K] [Neg K]
+    (o : Ops K) (tx : Nat → Nat) (rx : Nat → Nat) (scattering_matrix : Nat → Nat → K) (numpoints : Nat) (tx_ray_weights : Nat → K) (rx_ray_weights : Nat → K) (tx_scattering_angles : Nat → K) (rx_scattering_angles : Nat → K) (scat_angle : K) (scan : Nat) : K :=
+  let inc_theta := ((tx_scattering_angles (tx scan)) - scat_angle)
+  let out_theta := ((rx_scattering_angles (rx scan)) - scat_angle)
+  let scattering_amp := ((fun M a b => interpolate_scattering_matrix_kernel o M numpoints a b) scattering_matrix inc_theta out_theta)
+  let cell_res := ((scattering_amp * (tx_ray_weights (tx scan))) * (rx_ray_weights (rx scan)))
+  cell_res
 
 end Arim.Src
